@@ -12,22 +12,28 @@ def delayAt (init maxD : Rat) : Nat → Rat
 /-! ### Retry delays grow geometrically from the initial to the maximum delay and reset after a success -/
 
 structure DlSt where
-  k : Nat := 0            -- retries scheduled since the last successful reply
+  k : Nat := 0            -- retries with back-off scheduled since the last successful reply
   inErr : Bool := false   -- the event being handled is a failed fetch/offset request
+  bad : Bool := false
   deriving DecidableEq, Repr
 
-def dlStep (init maxD : Rat) (m : DlSt) : Item → Option DlSt
-  | .ev (.fetchOk _ r) => some (match r.tail with | .raise _ _ => { k := 0, inErr := true } | _ => { k := 0, inErr := false })
-  | .ev (.offsetOk _ _) => some { k := 0, inErr := false }
-  | .ev (.offsetFetchOk _ _) => some { k := 0, inErr := false }
-  | .ev (.fetchErr _ _ _) => some { m with inErr := true }
-  | .ev (.offsetErr _ _ _) => some { m with inErr := true }
-  | .ev (.offsetFetchErr _ _ _) => some { m with inErr := true }
-  | .ev _ => some { m with inErr := false }
+instance : HasBad DlSt := ⟨DlSt.bad⟩
+
+def dlStep (init maxD : Rat) (m : DlSt) : Item → DlSt
+  | .ev (.fetchOk _ _) => { m with k := 0, inErr := false }
+  | .ev (.offsetOk _ _) => { m with k := 0, inErr := false }
+  | .ev (.offsetFetchOk _ _) => { m with k := 0, inErr := false }
+  | .ev (.fetchErr _ _ _) => { m with inErr := true }
+  | .ev (.offsetErr _ _ _) => { m with inErr := true }
+  | .ev (.offsetFetchErr _ _ _) => { m with inErr := true }
+  | .ev _ => { m with inErr := false }
   | .ob (.setTimer .retry d) =>
-    if m.inErr then (if d == delayAt init maxD m.k then some { m with k := m.k + 1 } else none)
-    else if d == 0 then some m else none
-  | _ => some m
+    -- after a failed request: the back-off delay, nothing else.  Otherwise: the immediate refetch (0), or
+    -- (a reply whose iteration raised part-way is handled as a failure) the back-off delay.
+    if d == delayAt init maxD m.k then { m with k := m.k + 1 }
+    else if !m.inErr && d == 0 then m
+    else { m with bad := true }
+  | _ => m
 
 def delaysOk (init maxD : Rat) (tr : List Item) : Bool := accepts (dlStep init maxD) {} tr
 
@@ -39,24 +45,31 @@ structure AtSt where
   cf : Nat := 0           -- consecutive failed fetch/offset requests in this run
   savedCf : Nat := 0
   inErr : Bool := false
+  bad : Bool := false
   deriving DecidableEq, Repr
+
+instance : HasBad AtSt := ⟨AtSt.bad⟩
 
 def atFail (m : AtSt) : AtSt := { m with cf := m.cf + 1, inErr := true }
 
-def atStep (m : AtSt) : Item → Option AtSt
-  | .ev (.start _) => some { m with cf := 0, savedCf := m.cf, inErr := false }
-  | .ob .raisedRestart => some { m with cf := m.savedCf }
-  | .ev .shutdown => some { m with limit := if m.limit == 0 then Afkak.Consts.shutdownRetryAttempts else m.limit, savedLimit := m.limit, inErr := false }
-  | .ob .shutdownRejected => some { m with limit := m.savedLimit }
-  | .ev (.fetchOk _ r) => some (match r.tail with | .raise _ _ => { m with cf := 1, inErr := true } | _ => { m with cf := 0, inErr := false })
-  | .ev (.offsetOk _ _) => some { m with cf := 0, inErr := false }
-  | .ev (.offsetFetchOk _ _) => some { m with cf := 0, inErr := false }
-  | .ev (.fetchErr _ _ _) => some (atFail m)
-  | .ev (.offsetErr _ _ _) => some (atFail m)
-  | .ev (.offsetFetchErr _ _ _) => some (atFail m)
-  | .ev _ => some { m with inErr := false }
-  | .ob (.setTimer .retry _) => if m.inErr && m.limit != 0 && m.cf ≥ m.limit then none else some m
-  | _ => some m
+def atShutdown (m : AtSt) : AtSt :=
+  { m with limit := if m.limit == 0 then Afkak.Consts.shutdownRetryAttempts else m.limit, savedLimit := m.limit }
+
+def atStep (m : AtSt) : Item → AtSt
+  | .ev (.start _) => { m with cf := 0, savedCf := m.cf, inErr := false }
+  | .ob .raisedRestart => { m with cf := m.savedCf }
+  | .ev .shutdown => { atShutdown m with inErr := false }
+  | .ob (.act .shutdown) => atShutdown m
+  | .ob .shutdownRejected => { m with limit := m.savedLimit }
+  | .ev (.fetchOk _ r) => (match r.tail with | .raise _ _ => { m with cf := 1, inErr := true } | _ => { m with cf := 0, inErr := false })
+  | .ev (.offsetOk _ _) => { m with cf := 0, inErr := false }
+  | .ev (.offsetFetchOk _ _) => { m with cf := 0, inErr := false }
+  | .ev (.fetchErr _ _ _) => atFail m
+  | .ev (.offsetErr _ _ _) => atFail m
+  | .ev (.offsetFetchErr _ _ _) => atFail m
+  | .ev _ => { m with inErr := false }
+  | .ob (.setTimer .retry _) => if m.inErr && m.limit != 0 && m.cf ≥ m.limit then { m with bad := true } else m
+  | _ => m
 
 def attemptsOk (limit : Nat) (tr : List Item) : Bool := accepts atStep { limit := limit } tr
 
@@ -66,50 +79,55 @@ structure RsSt where
   expect : Option Int := none     -- the next request must be an OffsetRequest for this time
   fatal : Option Nat := none      -- the event being handled is out-of-range (tag) and no policy is set
   reported : Bool := false
+  fired : Bool := false           -- the start() Deferred of this run has fired already
+  savedFired : Bool := false
+  bad : Bool := false
   deriving DecidableEq, Repr
 
-def rsStep (reset : Option Int) (m : RsSt) : Item → Option RsSt
+instance : HasBad RsSt := ⟨RsSt.bad⟩
+
+def rsStep (reset : Option Int) (m : RsSt) : Item → RsSt
   | .ev (.fetchErr _ .outOfRange t) =>
     match reset with
-    | none => some { m with fatal := some t, reported := false }
-    | some r => some { m with expect := some r, fatal := none }
-  | .ev (.start _) => some { m with fatal := none }
-  | .ob .raisedRestart => some m
-  | .ev _ => some { m with fatal := none }
-  | .ob (.startFired r) => some (if m.fatal.isSome then { m with reported := (r == .err (.ext .outOfRange (m.fatal.getD 0))) } else m)
-  | .ob (.crash _) => some { m with reported := true }
-  | .ob (.setTimer .retry _) => if m.fatal.isSome then none else some m
-  | .ob (.fetch _ _ _) => if m.expect.isSome then none else some m
-  | .ob (.offsetFetch _) => if m.expect.isSome then none else some m
+    | none => { m with fatal := some t, reported := m.fired }
+    | some r => { m with expect := some r, fatal := none }
+  -- a restart overwrites the fetch position, so it cancels the expectation
+  | .ev (.start _) => { m with fatal := none, fired := false, savedFired := m.fired, expect := none }
+  | .ob .raisedRestart => { m with fired := m.savedFired }
+  | .ev _ => { m with fatal := none }
+  | .ob (.startFired r) =>
+    if m.fatal.isSome then { m with fired := true, reported := (r == .err (.ext .outOfRange (m.fatal.getD 0))) }
+    else { m with fired := true }
+  | .ob (.crash _) => { m with reported := true }
+  | .ob (.setTimer .retry _) => if m.fatal.isSome then { m with bad := true } else m
+  | .ob (.fetch _ _ _) => if m.expect.isSome then { m with bad := true } else m
+  | .ob (.offsetFetch _) => if m.expect.isSome then { m with bad := true } else m
   | .ob (.offsets _ t) =>
     match m.expect with
-    | some r => if t == r then some { m with expect := none } else none
-    | none => some m
-  | .ob (.probe _ _) => if m.fatal.isSome && !m.reported then none else some { m with fatal := none }
-  | _ => some m
+    | some r => if t == r then { m with expect := none } else { m with bad := true }
+    | none => m
+  | .ob (.probe _ _) => if m.fatal.isSome && !m.reported then { m with bad := true } else { m with fatal := none }
+  | _ => m
 
-/-- (a restart overwrites the fetch position, so it cancels the expectation) -/
-def rsStep' (reset : Option Int) (m : RsSt) (x : Item) : Option RsSt :=
-  match x with
-  | .ev (.start _) => (rsStep reset m x).map fun m' => { m' with expect := none }
-  | _ => rsStep reset m x
-
-def resetOk (reset : Option Int) (tr : List Item) : Bool := accepts (rsStep' reset) {} tr
+def resetOk (reset : Option Int) (tr : List Item) : Bool := accepts (rsStep reset) {} tr
 
 /-! ### Buffer growth: ×16 up to 1 MiB, ×2 after, capped; fails only at the maximum; never shrinks -/
 
 structure GrSt where
   buf : Nat
   credit : Nat := 0      -- too-small answers not yet reflected in a fetch request
+  bad : Bool := false
   deriving DecidableEq, Repr
 
-def grStep (max : Option Nat) (m : GrSt) : Item → Option GrSt
-  | .ev (.fetchOk _ r) => some (if r.tail == .small then { m with credit := m.credit + 1 } else m)
+instance : HasBad GrSt := ⟨GrSt.bad⟩
+
+def grStep (max : Option Nat) (m : GrSt) : Item → GrSt
+  | .ev (.fetchOk _ r) => if r.tail == .small then { m with credit := m.credit + 1 } else m
   | .ob (.fetch _ _ mb) =>
-    if mb == m.buf then some m
-    else if m.credit > 0 && grow m.buf max == some mb then some { buf := mb, credit := m.credit - 1 } else none
-  | .ob (.startFired (.err .tooSmall)) => if m.credit > 0 && (grow m.buf max).isNone then some m else none
-  | _ => some m
+    if mb == m.buf then m
+    else if m.credit > 0 && grow m.buf max == some mb then { m with buf := mb, credit := m.credit - 1 } else { m with bad := true }
+  | .ob (.startFired (.err .tooSmall)) => if m.credit > 0 && (grow m.buf max).isNone then m else { m with bad := true }
+  | _ => m
 
 def growthOk (init : Nat) (max : Option Nat) (tr : List Item) : Bool := accepts (grStep max) { buf := init } tr
 
@@ -118,18 +136,21 @@ def growthOk (init : Nat) (max : Option Nat) (tr : List Item) : Bool := accepts 
 structure NsSt where
   offs : List (Nat × Int) := []   -- fetch requests issued: (id, offset)
   expect : Option Int := none
+  bad : Bool := false
   deriving DecidableEq, Repr
 
-def nsStep (m : NsSt) : Item → Option NsSt
+instance : HasBad NsSt := ⟨NsSt.bad⟩
+
+def nsStep (m : NsSt) : Item → NsSt
   | .ob (.fetch k off _) =>
     match m.expect with
-    | some e => if off == e then some { offs := (k, off) :: m.offs, expect := none } else none
-    | none => some { m with offs := (k, off) :: m.offs }
+    | some e => if off == e then { m with offs := (k, off) :: m.offs, expect := none } else { m with bad := true }
+    | none => { m with offs := (k, off) :: m.offs }
   | .ev (.fetchOk k r) =>
-    if r.tail == .small && r.msgs.isEmpty then some { m with expect := (m.offs.lookup k) } else some m
-  | .ev (.start _) => some { m with expect := none }
-  | .ev (.fetchErr _ .outOfRange _) => some { m with expect := none }
-  | _ => some m
+    if r.tail == .small && r.msgs.isEmpty then { m with expect := (m.offs.lookup k) } else m
+  | .ev (.start _) => { m with expect := none }
+  | .ev (.fetchErr _ .outOfRange _) => { m with expect := none }
+  | _ => m
 
 def neverSkipsOk (tr : List Item) : Bool := accepts nsStep {} tr
 
